@@ -243,3 +243,45 @@ def quote_agree(rep, prog, rule="QUOTE-AGREE"):
             rep.violation(rule, key, "the unquoted parser accepts characters by %s, the printer decides on quoting by %s: an abbreviation "
                           "with a character the unquoted parser stops at (a digit) is printed without <...> and the digits are read as "
                           "the offset (<ABC1>5 prints as ABC15)" % (want, got or "comparisons with '+' and '-' only"), df[0].loc())
+
+
+def prefix_remainder(rep, prog, rule="PREFIX-REMAINDER"):
+    """a sub-parser that was handed only a prefix of the unparsed input reports what it left of the prefix, not of the input"""
+    from .term import ok_payloads, is_call
+    rep.rule(rule, "fmt::temporal::parser::DateTimeParser::parse_time_zone cuts a whitespace-delimited prefix off its input and hands "
+                   "only that prefix to PosixTimeZone::parse_prefix; the remainder it returns must re-attach what follows the prefix: "
+                   "in every Ok(Parsed { input: R, .. }) whose R contains the result of parse_prefix, R also reads the advancing "
+                   "cursor (or the input parameter) outside that call's argument. Returning parse_prefix's own remainder drops "
+                   "everything after the first whitespace, so \"EST5EDT,M3.2.0,M11.1.0 junk\" parses as a time zone")
+    f = prog.fns.get("jiff::fmt::temporal::parser::DateTimeParser::parse_time_zone")
+    if f is None:
+        rep.anchor_missing("fmt::temporal::parser::DateTimeParser::parse_time_zone")
+        return
+    T = Terms(f)
+    n = 0
+    for a in ok_payloads(T.returns()):
+        if a[0] != "agg":
+            continue
+        d = dict(a[3])
+        R = d.get("input")
+        if R is None or not any(is_call(x, "::parse_prefix") for x in walk(R)):
+            continue
+        n += 1
+
+        def outside(t_, inside=False):
+            """does t_ read the cursor / the input parameter outside the argument of parse_prefix?"""
+            if not isinstance(t_, tuple) or not t_:
+                return False
+            if is_call(t_, "::parse_prefix"):
+                return False
+            if t_[0] == "phi" or (t_[0] == "param" and t_[2] == "input"):
+                return True
+            return any(outside(c) for c in _children(t_))
+        if outside(R):
+            rep.ok(rule, "parse_time_zone: POSIX branch", how="the returned remainder re-attaches what follows the prefix", loc=f.loc())
+        else:
+            rep.violation(rule, "parse_time_zone: POSIX branch", "the returned remainder is %s: what parse_prefix left of the prefix only; the "
+                          "input after the first whitespace is never reported as unparsed, so trailing garbage is accepted"
+                          % show(R, maxd=4)[:160], f.loc())
+    if n == 0:
+        rep.violation(rule, "parse_time_zone: POSIX branch", "anchor missing: no Ok return built from PosixTimeZone::parse_prefix", f.loc())
